@@ -206,6 +206,42 @@ def run(res, tier, build_ok):
                               "in a fresh interpreter, after %s: %s of %s gives %s, %s on its own" % (" ; ".join(hist), bad[0], p["name"], bad[1], bad[2]),
                               {"history": hist, "got": bad[1], "solo": bad[2]})
                 break
+    # ---- two threads, cold process: thread A parked after k traced lines (scsi_command.py and converter.py), thread B
+    #      runs to completion, then A finishes; every k, each schedule in a freshly forked process
+    tchild = str(common.VERIF / "tools" / "lib" / "c09_threads_child.py")
+    tjobs = []
+    same = rng.choice(pool)
+    diff = rng.sample(pool, 2)
+    for a, b in [(same, same), (diff[0], diff[1])] + ([(rng.choice(pool), rng.choice(pool)) for _ in range(2)] if scale > 1 else []):
+        desc = lambda p: {"module": p["module"], "cls": p["name"], "set": p["set"], "opname": p["opname"], "kw": p["kw"]}
+        tjobs.append(({"A": desc(a), "B": desc(b), "ks": [], "step": 1 if (a is b or scale > 1) else 3}, a, b))
+    tprocs = [(subprocess.Popen([common.PYTHON, tchild], stdin=subprocess.PIPE, stdout=subprocess.PIPE, stderr=subprocess.PIPE,
+                                env=dict(__import__("os").environ, VERIF_REPO=str(common.REPO))), job, a, b) for job, a, b in tjobs]
+    for pr, job, a, b in tprocs:
+        o, e = pr.communicate(base64.b64encode(pickle.dumps(job)), timeout=900)
+        if pr.returncode != 0:
+            raise common.Infra("C09 thread child failed: " + e.decode()[-800:])
+        out = pickle.loads(base64.b64decode(o))
+        for k, results in sorted(out["runs"].items()):
+            res.case(("cold-threads", a["name"], b["name"], k), None)
+            res.count("cold-process thread schedules")
+            if not isinstance(results, dict):
+                res.violation("cold threads %s|%s crash" % (a["name"], b["name"]), "schedule k=%d crashed: %s" % (k, str(results)[:200]),
+                              {"classes": [a["name"], b["name"]], "preempt_after": k})
+                break
+            bad = None
+            for tid, p in ((0, a), (1, b)):
+                want = ("ok", (p["cdb"], p["fields"], p["re"]))
+                if results.get(tid) != want:
+                    bad = (tid, p, results.get(tid), want)
+                    break
+            if bad:
+                tid, p, got, want = bad
+                res.violation("cold threads %s|%s" % (a["name"], b["name"]),
+                              "in a fresh process, thread 0 (%s) parked after %d traced lines while thread 1 (%s) runs: thread %d got %s, %s on its own" % (
+                                  a["name"], k, b["name"], tid, str(got)[:200], str(want)[:200]),
+                              {"classes": [a["name"], b["name"]], "preempt_after": k, "thread": tid, "got": str(got)[:400], "solo": str(want)[:400]})
+                break
     # ---- two threads under a deterministic line-level scheduler
     pairs = [(a, b) for a in pool for b in pool if a["L"] != b["L"]]
     rng.shuffle(pairs)
